@@ -31,7 +31,14 @@ def select(ctx, cases):
         k, n, none = c["kind"], c["n"], c["child"] == "none"
         boundary = k in ("fault", "sys", "badexec") or (k == "ext" and n in (9, 15, 5)) \
             or (k == "raise" and n in (5, 9, 24, 25, 31)) or (k == "exit" and n in (0, 1, 255))
-        if ctx.quick():
+        if c.get("core") == 1:
+            # core dumps enabled: the hardware faults, the seccomp kill, abort and the CPU limit signal on
+            # every runner in the quick tier, all ten core-dumping signals (and an orphan) in the thorough one
+            if not ctx.quick() or (none and (k in ("fault", "sys") or n in (6, 24))):
+                ess.append(c)
+            else:
+                rest.append(c)
+        elif ctx.quick():
             if none and boundary:
                 ess.append(c)                       # every runner: the class boundaries of the table
             elif none and c["runner"] == rot and (k == "raise" or (k == "exit" and n in REP_EXITS)):
@@ -74,7 +81,7 @@ def run(ctx):
     ctx.cov["mc_states"] = r.distinct
     if ctx.replay and ctx.replay.get("case"):
         c = ctx.replay["case"]
-        ess, rest = [dict((k, c[k]) for k in ("runner", "kind", "n", "child", "cn"))], []
+        ess, rest = [dict((k, c.get(k, 0)) for k in ("runner", "kind", "n", "child", "cn", "core"))], []
     else:
         ess, rest = select(ctx, ctx.read_ndjson(os.path.join(r.dir, "cases.ndjson")))
     # 3. real runs
@@ -98,16 +105,19 @@ def run(ctx):
     drift = 0
     incon = []
     nolaunch = 0
+    vacuous = 0
     for b in bad:
         o = obs[b["i"] - 1]
         if b["j"] == "viol":
-            key = "%s:%s:%s:%s" % (o["runner"], o["kind"], o["n"], b["why"])
+            key = "%s:%s:%s:%s%s" % (o["runner"], o["kind"], o["n"], b["why"], ":core" if o.get("core") == 1 else "")
             ctx.violation(key, "%s; expected %s, runner reported status=%s exit=%s err=%r (child=%s)" % (
                 b["why"], json.dumps(b["exp"]), o["status"], o["exit"], o["err"][:80], o["child"]), o)
         elif b["j"] == "drift":
             drift += 1
             if drift <= 5:
                 ctx.note("DRIFT %s %s" % (b["why"], json.dumps(o)[:300]))
+        elif b["j"] == "vacuous":
+            vacuous += 1
         elif b["j"] == "nolaunch":
             nolaunch += 1
             if nolaunch <= 3:
@@ -118,17 +128,24 @@ def run(ctx):
     ctx.cov["drift"] = drift
     ctx.cov["kernel_truth_mismatches"] = len(incon)
     ctx.cov["launch_failures"] = nolaunch
+    core_runs = [o for o in obs if o.get("core") == 1 and o["report"] and o["report"][-1]["t"] == "raising"]
+    ctx.cov["ended_with_core_dump_enabled"] = len(core_runs)
+    ctx.cov["core_dump_witnessed"] = sum(1 for o in core_runs if any(l["t"] == "corewit" and l["v"] == 1 for l in o["report"]))
+    ctx.cov["core_cases_vacuous_no_dump_here"] = vacuous
+    if vacuous:
+        ctx.note("%d core-dump cases are vacuous: the kernel produced no dump for the witness child (core_pattern / RLIMIT_CORE of this host)" % vacuous)
     ctx.cov["executed_by_runner"] = dict((r_, sum(1 for o in obs if o["runner"] == r_)) for r_ in RUNNERS)
     ctx.cov["ended_by_signal_for_real"] = sum(1 for o in obs if o["report"] and o["report"][-1]["t"] in ("raising", "ready"))
     ctx.cov["survivors_pid1"] = sum(1 for o in obs if any(l["t"] == "survived" for l in o["report"]))
     for o in obs[:: max(1, len(obs) // 4)]:
-        ctx.sample(dict((k, o[k]) for k in ("runner", "kind", "n", "child", "cn", "status", "exit", "report")))
+        ctx.sample(dict((k, o[k]) for k in ("runner", "kind", "n", "child", "cn", "core", "status", "exit", "report")))
     ctx.assumptions += [
         "what ended the program is read from the probe's own report written before the attempt (raising s / exiting n / survived s)",
         "kernel: a pid-1 process with default dispositions is ended only by forced signals (faults, seccomp) and by SIGKILL from an ancestor namespace (Status!KernelFatal); every run cross-checks this",
         "under ptrace the delivery of SIGXCPU/SIGXFSZ to a *child* ends the run with TLE/OLE: treated as deliberate, judged at the implementation layer only",
         "exit value is judged for Normal / Nonzero Exit Status / Signalled; for TLE/OLE/Disallowed Syscall only the class is pinned by the table",
         "external signals are not sent in sync-after mode (the host never learns the program's pid there)",
+        "core dimension: RLIMIT_CORE soft > 0 via the runner's RLimits and a writable work dir; whether a dump is produced is witnessed by a child of the probe dying of SIGSEGV just before (WCOREDUMP seen by its parent); the main process is assumed to dump like it",
     ]
     if not ctx.violations and not ctx.known_hits:
         import vlib
